@@ -29,7 +29,6 @@ size_t g_i;       /* octets of the current argument buffer consumed by the speci
 uint32_t crc32(const void* vdata, size_t size, uint32_t cs)
 __CPROVER_requires(__CPROVER_is_fresh(vdata, size))
 __CPROVER_requires(g_crc == C10_CRC32_INIT(cs))
-__CPROVER_requires(g_n <= (SIZE_MAX >> 1) && size <= (SIZE_MAX >> 1))
 __CPROVER_ensures(__CPROVER_return_value == C10_CRC32_FINAL(g_crc))
 __CPROVER_ensures(g_n == __CPROVER_old(g_n) + size)
 __CPROVER_ensures(g_i == size)
@@ -38,7 +37,6 @@ __CPROVER_assigns(g_crc, g_t, g_n, g_i);
 uint32_t fnv1a32(const void* data, size_t size, uint32_t hash)
 __CPROVER_requires(__CPROVER_is_fresh(data, size))
 __CPROVER_requires(g_h32 == hash)
-__CPROVER_requires(g_n <= (SIZE_MAX >> 1) && size <= (SIZE_MAX >> 1))
 __CPROVER_ensures(__CPROVER_return_value == g_h32)
 __CPROVER_ensures(g_n == __CPROVER_old(g_n) + size)
 __CPROVER_ensures(g_i == size)
@@ -47,7 +45,6 @@ __CPROVER_assigns(g_h32, g_n, g_i);
 uint64_t fnv1a64(const void* data, size_t size, uint64_t hash)
 __CPROVER_requires(__CPROVER_is_fresh(data, size))
 __CPROVER_requires(g_h64 == hash)
-__CPROVER_requires(g_n <= (SIZE_MAX >> 1) && size <= (SIZE_MAX >> 1))
 __CPROVER_ensures(__CPROVER_return_value == g_h64)
 __CPROVER_ensures(g_n == __CPROVER_old(g_n) + size)
 __CPROVER_ensures(g_i == size)
